@@ -138,6 +138,18 @@ def exact_sqrt(q):
     return None
 
 
+def _keepdims(result, a, axis):
+    """numpy's keepdims=True: the reduced axes stay as axes of length one"""
+    a = asarr(a) if not isinstance(a, Arr) else a
+    if axis is None:
+        shape = (1,) * a.ndim
+    else:
+        ax = axis if axis >= 0 else axis + a.ndim
+        shape = tuple(1 if k == ax else s for k, s in enumerate(a.shape))
+    r = result if isinstance(result, Arr) else Arr((), [result])
+    return r.reshape(shape)
+
+
 def _only(kw, ignorable, fname):
     """keywords of a numpy call that a summary does not model end the run (never silently dropped); `ignorable` ones do not
     change what the analysis tracks (memory order, dtype of exact values, sort algorithm, ..)"""
@@ -1011,8 +1023,9 @@ class Models(object):
         return Arr(rest, out)
 
     def np_sum(self, a, axis=None, **kw):
-        _only(kw, ('dtype',), 'np.sum')
-        return self._reduce(a, axis, _sum_items, 'sum', empty=0)
+        _only(kw, ('dtype', 'keepdims'), 'np.sum')
+        r = self._reduce(a, axis, _sum_items, 'sum', empty=0)
+        return _keepdims(r, a, axis) if kw.get('keepdims') else r
 
     def np_prod(self, a, axis=None, **kw):
         _only(kw, ('dtype',), 'np.prod')
@@ -1024,8 +1037,9 @@ class Models(object):
         return self._reduce(a, axis, prod, 'prod', empty=1)
 
     def np_mean(self, a, axis=None, **kw):
-        _only(kw, ('dtype',), 'np.mean')
-        return self._reduce(a, axis, lambda it: s_div(_sum_items(it), len(it)), 'mean')
+        _only(kw, ('dtype', 'keepdims'), 'np.mean')
+        r = self._reduce(a, axis, lambda it: s_div(_sum_items(it), len(it)), 'mean')
+        return _keepdims(r, a, axis) if kw.get('keepdims') else r
 
     def np_cumsum(self, a, axis=None):
         a = self.np_asarray(a)
@@ -1110,8 +1124,9 @@ class Models(object):
         return f
 
     def np_max(self, a, axis=None, **kw):
-        _only(kw, (), 'np.max')
-        return self._extreme('max', 'maximum')(a, axis)
+        _only(kw, ('keepdims',), 'np.max')
+        r = self._extreme('max', 'maximum')(a, axis)
+        return _keepdims(r, a, axis) if kw.get('keepdims') else r
     np_amax = np_max
 
     def np_ptp(self, a, axis=None, **kw):
@@ -1165,8 +1180,9 @@ class Models(object):
         return None
 
     def np_min(self, a, axis=None, **kw):
-        _only(kw, (), 'np.min')
-        return self._extreme('min', 'minimum')(a, axis)
+        _only(kw, ('keepdims',), 'np.min')
+        r = self._extreme('min', 'minimum')(a, axis)
+        return _keepdims(r, a, axis) if kw.get('keepdims') else r
     np_amin = np_min
     np_nanmin = np_min
     np_nanmax = np_max
